@@ -508,7 +508,7 @@ class Gen:
         rng = self.rng
         k = rng.choice(('IF', 'IFELSE', 'TRY', 'TRYERR', 'LOOPN', 'LOOP1',
                         'DEF', 'EVAL', 'MERKLE', 'TAPROOT', 'RETLOOP',
-                        'EVALDEF', 'RETCALL', 'IF', 'IFELSE', 'DEF'))
+                        'EVALDEF', 'RETCALL', 'IF', 'IFELSE', 'DEF', 'REDEF'))
         d = depth + 1
         if k == 'IF':
             return P(g_bool(rng)) + isa.IF(self.block(d))
@@ -545,11 +545,19 @@ class Gen:
             # an evaluated / merklized script redefines a function: the
             # caller's definition must be the one called afterwards
             h = rng.choice((0, 3))
-            inner = isa.DEF(h, P(b'in')) + (isa.CALL(h) if rng.random() < 0.5
+            inner = isa.DEF(h, P(b'inn')) + (isa.CALL(h) if rng.random() < 0.5
                                             else b'')
             how = rng.random()
             ev = (P(inner) + O('EVAL')) if how < 0.6 else merkle_wrap(inner)
             return isa.DEF(h, P(b'out')) + ev + isa.CALL(h)
+        if k == 'REDEF':
+            # a handle defined twice (bodies of equal or different length):
+            # the later definition is the one a later CALL runs
+            h = rng.choice((0, 6))
+            a, b = P(b'one'), P(b'two') if rng.random() < 0.7 else P(b'three')
+            mid = self.block(depth, 1)
+            return isa.DEF(h, a) + (isa.CALL(h) if rng.random() < 0.5 else b'') \
+                + mid + isa.DEF(h, b) + isa.CALL(h)
         if k == 'RETCALL':
             # RETURN at some depth inside a function: returns to the caller
             h = rng.choice((4, 5))
